@@ -10,6 +10,8 @@ CONSTANTS
   Gen = FALSE
   LateFlag = FALSE
   NoRebind = FALSE
+  KeepScope = FALSE
+  ExtractFirst = FALSE
 SPECIFICATION Spec
 INVARIANT RuleOK
 CHECK_DEADLOCK FALSE
